@@ -116,15 +116,17 @@ def declsOf (attrs : List NSAttr) : List (Str × Str) :=
 /-- The ordinary attributes of a start tag, in order. -/
 def ordinary (attrs : List NSAttr) : List NSAttr := attrs.filter fun a => !a.isDecl
 
-/-- The value of an ordinary attribute: decoded and normalised as an attribute value; the value of
-    an attribute WRITTEN `xml:id` is moreover normalised as an ID (`DocumentBuilder::attribute`). -/
-def NSAttr.value (a : NSAttr) : Str :=
-  if a.loc.text == ['i', 'd'] && a.pfx.text == ['x', 'm', 'l'] then normalizeXmlId (valueOf true a.pieces)
+/-- The value of an ordinary attribute in the scope of its element: decoded and normalised as an
+    attribute value; the value of an attribute whose EXPANDED name is (XML namespace, `id`) —
+    whatever prefix spells it — is moreover normalised as an ID (`open_element`, under
+    `name_id == self.xml_id_id`). -/
+def NSAttr.value (scope : Scope) (a : NSAttr) : Str :=
+  if (scope.attrNs a.pfx.text, a.loc.text) == (xmlNsUri, ['i', 'd']) then normalizeXmlId (valueOf true a.pieces)
   else valueOf true a.pieces
 
 /-- An ordinary attribute in the scope of its element: ((namespace URI, local name), value). -/
 def NSAttr.denote (scope : Scope) (a : NSAttr) : (Str × Str) × Str :=
-  ((scope.attrNs a.pfx.text, a.loc.text), a.value)
+  ((scope.attrNs a.pfx.text, a.loc.text), a.value scope)
 
 def attrsOf (scope : Scope) (attrs : List NSAttr) : List ((Str × Str) × Str) :=
   (ordinary attrs).map (NSAttr.denote scope)
@@ -172,15 +174,17 @@ def attrsWellNs (scope : Scope) (attrs : List NSAttr) : Prop :=
     accepts; where that is more than Namespaces in XML 1.0 allows it is kept:
     * `xmlns:p=""` is accepted (binds `p` to no namespace), likewise declarations of the prefixes
       `xml` and `xmlns` and of the URIs reserved for them: no test in `DocumentBuilder::prefix`;
-    * an end tag need not repeat the start tag's prefix: `close_element` compares name ids, so any
-      prefix bound to the same URI (and the same local name) closes the element.
-    Every element prefix must be bound (the empty prefix always is). -/
+      (recorded defects C03:reserved-prefix-or-namespace-rebound-accepted,
+      C03:prefixed-undeclaration-accepted).
+    An end tag repeats the start tag's name AS WRITTEN, prefix and local name: `close_element`
+    compares the name ids and the written prefixes (`open_prefixes`), so another prefix bound to
+    the same URI does not close the element.  Every element prefix must be bound (the empty prefix
+    always is). -/
 def NSNode.Well : Scope → NSNode → Prop
   | scope, .elem pfx loc _ attrs _ kids cpfx cloc _ =>
     attrsWellNs (scope.push (declsOf attrs)) attrs ∧
     ((scope.push (declsOf attrs)).lookup pfx.text).isSome = true ∧
-    cloc.text = loc.text ∧
-    (scope.push (declsOf attrs)).lookup cpfx.text = (scope.push (declsOf attrs)).lookup pfx.text ∧
+    cpfx.text = pfx.text ∧ cloc.text = loc.text ∧
     noAdjCharsNs kids = true ∧ wellList (scope.push (declsOf attrs)) kids
   | scope, .empty pfx _ _ attrs _ =>
     attrsWellNs (scope.push (declsOf attrs)) attrs ∧
